@@ -57,7 +57,9 @@ def analyse(obs: Obs, prog):
     okl = is_t(t, "proj") and t[2] == 0 and is_call(t[1], "tree_leaves") and is_t(t[1][2][0], "treemap") and t[1][2][0][2][1] == P("args")
     if okl:
         body = t[1][2][0][1]
-        okl = is_t(body, "phi") and mentions_any(body[2], lambda x: is_t(x, "attr") and x[2] == "shape") and mentions(body[2], ("leaf", P("args"))) and body[3] == C(None)
+        lf = mk_proj(("call", G("jax.tree_util.tree_leaves"), (("leaf", P("args")),), ()), 0)
+        ax = [x for x in subterms(body) if is_t(x, "leaf") and x[1] != P("args")]
+        okl = is_t(body, "phi") and body[3] == C(None) and len(ax) >= 1 and body[2] == ("index", ("attr", lf, "shape"), ax[0])
     obs.add({"C11", "C01"}, "TRACE-LENGTH", "Vmap._static_broadcast_dim_length", okl, derived=t, expected="first non-None of tree_map(axis, x -> x.shape[axis] if axis is not None else None, in_axes, args)", where=W(V, "_static_broadcast_dim_length"))
     # ---------------------------------------------------------------- accessors
     r = ev.eval_fn(VT.methods["get_retval"], VT.module, VT)
